@@ -12,6 +12,10 @@ use serde_json::{json, Value};
 
 #[derive(Clone, Debug, Serialize, Deserialize)]
 pub struct DecodePlan {
+    /// history: a tiny complete frame declaring a window of 2^k bytes is decoded on the same decoder first (the frame
+    /// under test then meets a reused decoder with a much larger buffer; the full reuse dimension is C07's)
+    #[serde(default)]
+    pub before_window_log: Option<u8>,
     pub frame: FrameSpec,
     /// bytes that follow the frame in the source (must never be consumed)
     pub trailing: Vec<u8>,
@@ -83,6 +87,7 @@ pub fn gen_decode_plan(r: &mut Rng, tier: Tier, sink_fault_rate: u32, profile: &
     };
     let target = f.data.len() + *r.pick(&[0usize, 0, 1, 7, 4096]);
     Ok(DecodePlan {
+        before_window_log: if r.chance(1, 10) { Some(*r.pick(&[14u8, 20, 24, 26, 27])) } else { None },
         frame,
         trailing,
         program: Program { front, ops, source, finisher: true, explicit_init: r.chance(1, 4), target, prefix: r.urange(0, 9) },
@@ -296,6 +301,7 @@ impl Engine for DecodeSim {
             Err(_) => {
                 // the frame could not be built (reported again, as an error, when exec builds it)
                 DecodePlan {
+                    before_window_log: None,
                     frame: draw_frame_spec(&mut Rng::new(seed), &profile, 400),
                     trailing: vec![],
                     program: Program { front: FrontEnd::Reader, ops: vec![], source: SourceScript::plain(), finisher: true, explicit_init: false, target: 0, prefix: 0 },
@@ -309,7 +315,22 @@ impl Engine for DecodeSim {
         let mut input = f.bytes.clone();
         input.extend_from_slice(&plan.trailing);
         let mut dec = FrameDecoder::new();
-        let t = run_frame(&mut dec, &input, &plan.program, Some(f.nblocks()), &Limits::default());
+        let mut program = plan.program.clone();
+        if let Some(k) = plan.before_window_log {
+            let mut h = crate::walker::ZSTD_MAGIC.to_le_bytes().to_vec();
+            h.push(0x04); // checksum flag
+            h.push(crate::synth::wd(k.clamp(10, 27)));
+            h.extend_from_slice(&[0x19, 0x00, 0x00, b'a', b'b', b'c']);
+            h.extend_from_slice(&crate::xxh::zstd_checksum(b"abc").to_le_bytes());
+            let mut src = &h[..];
+            let ok = dec.reset(&mut src).is_ok() && dec.decode_blocks(&mut src, ruzstd::decoding::BlockDecodingStrategy::All).is_ok() && dec.collect().as_deref() == Some(&b"abc"[..]);
+            if !ok {
+                return Ok(RunOutcome { violation: Some(violation(format!("{}/history_frame_failed", self.id()), "a tiny valid frame with a large window did not decode".to_string())), digest: 0xBAD, nontrivial: true, steps: 1, bytes: 0 });
+            }
+            stats.inc("probe.frame_on_reused_decoder_after_larger_window");
+            program.explicit_init = true;
+        }
+        let t = run_frame(&mut dec, &input, &program, Some(f.nblocks()), &Limits::default());
         record_probes(stats, &t, plan.program.front);
         if f.data.len() as u64 > f.window() {
             stats.inc("probe.content_larger_than_window");
@@ -348,11 +369,14 @@ impl Engine for DecodeSim {
 
     fn shrink(&self, plan: &DecodePlan) -> Vec<DecodePlan> {
         let mut out = Vec::new();
+        if plan.before_window_log.is_some() {
+            out.push(DecodePlan { before_window_log: None, ..plan.clone() });
+        }
         for p in shrink_program(&plan.program) {
-            out.push(DecodePlan { frame: plan.frame.clone(), trailing: plan.trailing.clone(), program: p });
+            out.push(DecodePlan { program: p, ..plan.clone() });
         }
         if !plan.trailing.is_empty() {
-            out.push(DecodePlan { frame: plan.frame.clone(), trailing: vec![], program: plan.program.clone() });
+            out.push(DecodePlan { trailing: vec![], ..plan.clone() });
         }
         for fs in shrink_frame_spec(&plan.frame) {
             let mut q = plan.clone();
@@ -401,6 +425,7 @@ impl Engine for DecodeSim {
             "probe.drain_mid_frame_nonempty",
             "probe.content_larger_than_window",
             "probe.checksum_arrived_alone",
+            "probe.frame_on_reused_decoder_after_larger_window",
             "probe.wrapped_drain.collect_mid_frame",
             "probe.wrapped_drain.collect_final",
             "probe.wrapped_drain.read_mid_frame",
